@@ -118,6 +118,7 @@ pub struct RunResult {
     pub fairness_overrides: u64,
     pub wedge: bool,
     pub addrs: Vec<std::net::SocketAddr>,
+    pub conn_events: Vec<super::ConnEvent>,
 }
 
 struct Shared {
@@ -317,6 +318,7 @@ pub fn run_with(sc: &Scenario, trace: bool, setup: impl FnOnce(&Net)) -> RunResu
             fairness_overrides: net.fairness_overrides(),
             wedge: take_wedge(),
             addrs,
+            conn_events: super::take_conn_events(),
         }
     })
 }
